@@ -113,7 +113,7 @@ _extra = {
  "C16": "Also: from the failure edge of a tested call no path reaches a success return without touching the error; a tested error is not returned on its own nil edge; an error stored into a named result is read before it is overwritten; withTextOutWriter and runSubcommand run the body unless they return an error known non-nil, test the open error first, keep the body's error over a nil finish error and store a finish failure; every success return of newTextOutWriter carries a finish function, and the file's finish flushes.",
  "C18": "Also decided: the time filter of view-raw keeps a point iff (from == 0 or t > from) and t <= until (until + step when until == from), as a truth table over sign valuations; view-raw reads (SrcBase, SrcRelPath, ArchiveID) and filters what it read by (From, until); until defaults as for copy; each label of the header lines is fed from the field it names.",
  "C19": "Also: ArchiveInfoList.String, evaluated for three archives, writes e0 , e1 , e2.",
- "C20": "Also decided (decision diagrams and polynomial normal form): slot i of N is at until.Truncate(step) - (N-1-i)*step; randomValWithHighSum adds exactly the finer values truncating to t, stops only past t and adds N*Intn(highRndMax+1) only for slots older than the first finer point; randomPoints takes the covered start from the finer points iff they exist and start before until; randomPointsList chains archive k-1 into archive k with bound max*step/step_0; every flag.Value.Set stores what it parsed.",
+ "C20": "Also decided (decision diagrams and polynomial normal form): slot i of N is at until.Truncate(step) - (N-1-i)*step; randomValWithHighSum adds exactly the finer values truncating to t, stops only past t and adds N*Intn(highRndMax+1) only for slots older than the first finer point; randomPoints takes the covered start from the finer points iff they exist and do not start after until; randomPointsList chains archive k-1 into archive k with bound max*step/step_0; every flag.Value.Set stores what it parsed.",
 }
 _borrow = {
  "C01": "Also evaluates C03.R1/R4 (a point routed to the wrong archive is not the last value of its slot) and that the writer stores exactly the aligned point it was given (putPointAt encodes its parameter).",
@@ -127,6 +127,26 @@ _borrow = {
  "C14": "Also: the decoder's value count is exactly Sub(until, from)/step; the first read of readHeader stays within the smallest valid file.",
  "C15": "Also evaluates C07.R4 (sizes from untrusted counts are bounded in wide arithmetic by the layout validation).",
 }
+# rules added after the sixth seeding round (DESIGN.md 10.11)
+_r6 = {
+ "C01": "Also evaluates C03.R3 (the age partition of a batch) and, through C03.R4, that a named archive is the archive written.",
+ "C02": "Also: the work-list holds intervalForWrite of each written point's time and nothing in between; what propagate passes on is aligned to archive archiveID+1; the cases of aggregate are found through the named method constants.",
+ "C03": "Also: Points.Less is `<` on the two times themselves; the archive id of a single write changes only on the archiveID == ArchiveIDBest outcome.",
+ "C06": "Also: the header's max retention is taken from the list the header stores; the aggregation codes are Average..First = 1..6.",
+ "C08": "Also evaluates the readWhisperFile/globFiles obligations of C12.R2 (the remote source is requested with the query the handler reads back); the layout comparison pairs element i of one list with element i of the other.",
+ "C09": "Also evaluates the readWhisperFile/globFiles obligations of C12.R2 and C18.R1 (values and slot times are listed as stored).",
+ "C11": "Also evaluates the sumWhisperFile/globItems obligations of C12.R2; finish() of the text-out writer runs whatever the body returned (the listing reaches its file).",
+ "C12": "Also: the client maps an empty body to not-exist for every value it goes on to decode (the body is identified by its use); neither end of the list protocol reorders the names.",
+ "C13": "Also: no constant carrying O_TRUNC reaches the flag of os.OpenFile (backward slice through the option field, its stores and the callers).",
+ "C14": "Also: the fixed-size decoders (ArchiveInfo, Point, Value, Timestamp, Duration) fail only behind the short edge of a length test.",
+ "C15": "Also (C15.R8): in the cmd functions that issue HTTP requests every non-constant make length is built from len(...) and constants.",
+ "C16": "Also evaluates C10.R2 (a layout that does not match is refused by sum) and the every-archive obligation of C08.R9.",
+ "C17": "Also evaluates C13.R6 (a worker closes the handle it opened before it returns: no hold-and-wait between overlapping sums).",
+ "C18": "Also evaluates C19.R2 and the readWhisperFile/readWhisperFileRaw obligations of C12.R2 (the window of a remote view is printed by the client and parsed back by the server).",
+ "C20": "The covered start is taken from the finer points iff they exist and start at or before until.",
+}
+for _k, _v in _r6.items():
+    _borrow[_k] = (_borrow.get(_k, "") + " " + _v).strip()
 for _k, _v in _borrow.items():
     _extra[_k] = (_extra.get(_k, "") + " " + _v).strip()
 _re = "Every property also evaluates <id>.RE: no failure is turned into success in the functions reachable from its entry points."
